@@ -30,8 +30,8 @@ Record obs := Ob {
 
 Definition obs_of (s : st) (out : list pkt) : obs :=
   let r := s_reg s in
-  Ob (by_dst (length (s_conn s)) 0 out) (r_id r) (r_pending r) (r_ptimeout r) (r_active r)
-    (r_hasconn r) (r_flag r) (r_target r) (r_next r) (is_probing r) (blen (r_probes r)) (s_conn s).
+  Ob out (r_id r) (r_pending r) (r_ptimeout r) (r_active r)
+     (r_hasconn r) (r_flag r) (r_target r) (r_next r) (is_probing r) (blen (r_probes r)) (s_conn s).
 
 Fixpoint run_from (fx : bool) (s : st) (ops : list op) : list obs :=
   match ops with
@@ -47,8 +47,12 @@ Definition run (fx : bool) (n id0 pid : Z) (probe_at : option Z) (ops : list op)
 (** ---- equality of observations ---- *)
 Definition pkt_eqb (a b : pkt) : bool :=
   (pk_kind a =? pk_kind b) && (pk_dst a =? pk_dst b) && (pk_id a =? pk_id b).
+(** The model lists a step's packets in the order the code sends them; the harness sees them
+    per receiving uplink.  Both are compared grouped by uplink (order kept within an uplink);
+    every clause of the monitor below is insensitive to the order across uplinks. *)
+Definition canon (k : nat) (l : list pkt) : list pkt := by_dst k 0 l.
 Definition obs_eqb (a b : obs) : bool :=
-  list_eqb pkt_eqb (o_out a) (o_out b) && (o_id a =? o_id b) && ozeqb (o_pending a) (o_pending b) &&
+  list_eqb pkt_eqb (canon (length (o_conn a)) (o_out a)) (o_out b) && (o_id a =? o_id b) && ozeqb (o_pending a) (o_pending b) &&
   (o_ptimeout a =? o_ptimeout b) && (o_active a =? o_active b) && Bool.eqb (o_hasconn a) (o_hasconn b) &&
   Bool.eqb (o_flag a) (o_flag b) && ozeqb (o_target a) (o_target b) && (o_next a =? o_next b) &&
   Bool.eqb (o_probing a) (o_probing b) && (o_nprobes a =? o_nprobes b) &&
@@ -100,62 +104,76 @@ Fixpoint conn_ok (i : Z) (pre post : list bool) (reg3_on : option Z) : bool :=
     7 a pending attempt survives a REG_ERR
     8 a REG1 unanswered for 4 s is still pending after a tick
     9 after such a timeout, with no uplink connected, a REG_NGP is not answered by a new REG1 *)
+Definition expired (g : ghost) (o : op) : bool :=
+  match o, g_out g with
+  | Tick t _ _, Some (_, t0) => t0 + REG2_WAIT_MS <=? t
+  | _, _ => false
+  end.
+(** what is outstanding once this step's timeout (if any) has taken effect *)
+Definition out1 (g : ghost) (o : op) : option (Z * Z) := if expired g o then None else g_out g.
+Definition accepted (pre : obs) (o : op) (post : obs) : bool :=
+  is_reg2 o && is_some (o_pending pre) && is_none (o_pending post).
+Definition no_reg1 (post : obs) : bool := match reg1_dsts (o_out post) with [] => true | _ => false end.
+
+Definition cl1 (g : ghost) (o : op) (post : obs) : bool :=
+  match reg1_dsts (o_out post) with
+  | [] => true
+  | [j] => match out1 g o with None => true | Some (k, _) => k =? j end
+  | _ => false
+  end.
+Definition cl2 (g : ghost) (o : op) (post : obs) : bool :=
+  forallb (fun j => (is_tick o && out_on (out1 g o) j) || none_connected (o_conn post))
+          (reg1_dsts (o_out post)).
+Definition cl3 (g : ghost) (pre : obs) (o : op) (post : obs) : bool :=
+  if accepted pre o post
+  then match o with
+       | Reg2 i len tag _ => out_on (out1 g o) i && (REG2_MIN_LEN <=? len) && (o_id post =? tag)
+       | _ => false
+       end
+  else o_id post =? o_id pre.
+Definition cl4 (n : Z) (g : ghost) (o : op) (post : obs) : bool :=
+  match o with
+  | Tick _ _ due =>
+    range_all (Z.to_nat n) 0 (fun i =>
+      let c := reg2_count (o_out post) i in
+      let d := if memz i due then 1 else 0 in
+      if g_owed g then (1 <=? c) && (c <=? 1 + d) else c <=? d)
+  | _ => forallb (fun p => negb (pk_kind p =? K_REG2)) (o_out post)
+  end.
+Definition cl5 (post : obs) : bool :=
+  forallb (fun p => ((pk_kind p =? K_REG1) || (pk_kind p =? K_REG2)) && (pk_id p =? o_id post))
+          (o_out post).
+Definition cl6 (pre : obs) (o : op) (post : obs) : bool :=
+  conn_ok 0 (o_conn pre) (o_conn post) (match o with Reg3 i _ => Some i | _ => None end).
+Definition cl7 (o : op) (post : obs) : bool := negb (is_regerr o) || is_none (o_pending post).
+Definition cl8 (g : ghost) (o : op) (post : obs) : bool :=
+  negb (expired g o) || negb (no_reg1 post) || is_none (o_pending post).
+Definition cl9 (g : ghost) (pre : obs) (o : op) (post : obs) : bool :=
+  match o with
+  | Ngp j _ =>
+    negb (g_free g && is_none (out1 g o) && (o_active pre =? 0) && none_connected (o_conn pre)
+          && negb (o_probing pre))
+    || list_eqb Z.eqb (reg1_dsts (o_out post)) [j]
+  | _ => true
+  end.
+
+Definition clauses (n : Z) (g : ghost) (pre : obs) (o : op) (post : obs) : list bool :=
+  [cl1 g o post; cl2 g o post; cl3 g pre o post; cl4 n g o post; cl5 post; cl6 pre o post;
+   cl7 o post; cl8 g o post; cl9 g pre o post].
+
+Definition ghost_next (g : ghost) (pre : obs) (o : op) (post : obs) : ghost :=
+  G (match reg1_dsts (o_out post) with
+     | j :: _ => Some (j, op_now o)
+     | [] => if accepted pre o post || is_regerr o then None else out1 g o
+     end)
+    (if is_tick o then false else g_owed g || accepted pre o post)
+    (match reg1_dsts (o_out post) with
+     | _ :: _ => false
+     | [] => if expired g o then true else g_free g
+     end).
+
 Definition mon_step (n : Z) (g : ghost) (pre : obs) (o : op) (post : obs) : N * ghost :=
-  let now := op_now o in
-  let expired := match o, g_out g with
-                 | Tick t _ _, Some (_, t0) => t0 + REG2_WAIT_MS <=? t
-                 | _, _ => false
-                 end in
-  let out1 := if expired then None else g_out g in
-  let r1 := reg1_dsts (o_out post) in
-  let accepted := is_reg2 o && is_some (o_pending pre) && is_none (o_pending post) in
-  let c1 := match r1 with
-            | [] => true
-            | [j] => match out1 with None => true | Some (k, _) => k =? j end
-            | _ => false
-            end in
-  let c2 := forallb (fun j => (is_tick o && out_on out1 j) || none_connected (o_conn post)) r1 in
-  let c3 := if accepted
-            then match o with
-                 | Reg2 i len tag _ => out_on out1 i && (REG2_MIN_LEN <=? len) && (o_id post =? tag)
-                 | _ => false
-                 end
-            else o_id post =? o_id pre in
-  let c4 := match o with
-            | Tick _ _ due =>
-              range_all (Z.to_nat n) 0 (fun i =>
-                let c := reg2_count (o_out post) i in
-                let d := if memz i due then 1 else 0 in
-                if g_owed g then (1 <=? c) && (c <=? 1 + d) else c <=? d)
-            | _ => forallb (fun p => negb (pk_kind p =? K_REG2)) (o_out post)
-            end in
-  let c5 := forallb (fun p => ((pk_kind p =? K_REG1) || (pk_kind p =? K_REG2)) && (pk_id p =? o_id post))
-                    (o_out post) in
-  let c6 := conn_ok 0 (o_conn pre) (o_conn post)
-                    (match o with Reg3 i _ => Some i | _ => None end) in
-  let c7 := negb (is_regerr o) || is_none (o_pending post) in
-  let c8 := negb expired || negb (match r1 with [] => true | _ => false end) || is_none (o_pending post) in
-  let c9 := match o with
-            | Ngp j _ =>
-              negb (g_free g && is_none out1 && (o_active pre =? 0) && none_connected (o_conn pre)
-                    && negb (o_probing pre))
-              || list_eqb Z.eqb r1 [j]
-            | _ => true
-            end in
-  let code : N :=
-    (if negb c1 then 1 else if negb c2 then 2 else if negb c3 then 3 else if negb c4 then 4
-     else if negb c5 then 5 else if negb c6 then 6 else if negb c7 then 7 else if negb c8 then 8
-     else if negb c9 then 9 else 0)%N in
-  let out' := match r1 with
-              | j :: _ => Some (j, now)
-              | [] => if accepted || is_regerr o then None else out1
-              end in
-  let owed' := if is_tick o then false else g_owed g || accepted in
-  let free' := match r1 with
-               | _ :: _ => false
-               | [] => if expired then true else g_free g
-               end in
-  (code, G out' owed' free').
+  (first_bad (fun b : bool => b) (clauses n g pre o post) 0, ghost_next g pre o post).
 
 Fixpoint mon_run (n : Z) (g : ghost) (pre : obs) (ops : list op) (tr : list obs) : N :=
   match ops, tr with
@@ -180,6 +198,14 @@ Record case := C {
   c_impl : list obs        (* implementation, after each event *)
 }.
 
+(** the events the property quantifies over: uplink indices of the run, clock values of a u64 *)
+Definition wf_opb (n : Z) (o : op) : bool :=
+  match o with
+  | Ngp i t | Reg3 i t | RegErr i t | Reg2 i _ _ t => in_range n i && (0 <=? t)
+  | Tick t _ _ => 0 <=? t
+  end.
+Definition wf_ops (n : Z) (ops : list op) : bool := (0 <=? n) && forallb (wf_opb n) ops.
+
 Fixpoint first_diff (a b : list obs) (i : N) : N :=
   match a, b with
   | [], [] => 0%N
@@ -190,7 +216,7 @@ Fixpoint first_diff (a b : list obs) (i : N) : N :=
 Definition check_case (c : case) : N :=
   let '(m0, mtr) := run true (c_n c) (c_id0 c) (c_pid c) (c_probe c) (c_ops c) in
   let d := if obs_eqb m0 (c_obs0 c) then first_diff mtr (c_impl c) 1 else 1%N in
-  let lens := (length (c_impl c) =? length (c_ops c))%nat in
+  let lens := (length (c_impl c) =? length (c_ops c))%nat && wf_ops (c_n c) (c_ops c) in
   let m := if lens then mon_C07 (c_n c) (c_ops c) (c_obs0 c, c_impl c) else 15%N in
   if (m =? 0)%N then (if (d =? 0)%N then 0 else 1 + 4 * (1000 + d))%N
   else ((if (d =? 0)%N then 0 else 1) + 2 + 4 * m)%N.
